@@ -83,6 +83,8 @@ class MesageSwitchSimpleOpWriteHandler(AbstractWriteHandler):
                     self.start_vertex,
                     check_end_block=self.check_end_block,
                     disallow_nested=True,
+                    # the texts of the cases are no statements: a missing end op belongs after the block
+                    add_missing_end=False,
                 ).write_content()
             except NestedBlockDisallowedError:
                 raise ValueError(
